@@ -1034,6 +1034,9 @@ pub fn examine(case: &Case, report: &mut Report) -> Option<Sizes> {
         report.count(&format!("hist:generated:input-bind-groups:{}", info.groups));
         report.count(&format!("hist:generated:input-chain-depth:{}", info.chain_depth));
         report.count(&format!("hist:generated:input-statics:{}", info.statics));
+        if info.graphics_interpolators > 0 {
+            report.count(&format!("generated:vertex-pixel-workload:interpolators:{}", info.graphics_interpolators));
+        }
         if info.mesh_payload_types > 0 {
             report.count(&format!("generated:task-mesh-workload:payload-types:{}", info.mesh_payload_types));
         }
